@@ -504,7 +504,13 @@ class Runner:
         shutil.rmtree(self.codex_home, ignore_errors=True)
         shutil.rmtree(os.path.join(self.sb.aphome, 'state'), ignore_errors=True)
     def overlay_path(self, mid, scope):
-        rc, doc, out, err = self.sb.cli_json(['overlay', 'path', '--scope', scope, '--', mid] if mid.startswith('-') else ['overlay', 'path', mid, '--scope', scope])
+        if mid.startswith('-'):      # (--json must come before the `--` that protects an id starting with a dash)
+            p = self.sb.cli(['overlay', 'path', '--scope', scope, '--json', '--', mid])
+            out = p.stdout.decode('utf-8', 'replace'); err = p.stderr.decode('utf-8', 'replace'); rc = p.returncode
+            try: doc = json.loads(out)
+            except Exception: doc = None
+        else:
+            rc, doc, out, err = self.sb.cli_json(['overlay', 'path', mid, '--scope', scope])
         if rc != 0 or not doc or not doc.get('ok'):
             raise InfraError('overlay path failed: %s %s' % (out[:300], err[:300]))
         return doc['data']['overlay_dir']
